@@ -70,7 +70,15 @@ impl CaoLangAllocator {
         #[cfg(feature = "verif-hooks")]
         crate::verif::with(|c| c.before_alloc(self, l));
         let s = l.size() + l.align();
-        let allocated = s + self.allocated.fetch_add(s, Ordering::Relaxed);
+        let mut allocated = s + self.allocated.fetch_add(s, Ordering::Relaxed);
+        if allocated > self.limit.load(Ordering::Relaxed) && !self.runtime.is_null() {
+            // out of memory only if reclaiming the garbage does not make room either
+            unsafe {
+                (*self.runtime).gc();
+            }
+            allocated = self.allocated.load(Ordering::Relaxed);
+            self.next_gc.store(allocated * 2, Ordering::Relaxed);
+        }
         if allocated > self.limit.load(Ordering::Relaxed) {
             // the request is not granted, so it must not stay accounted for
             self.allocated.fetch_sub(s, Ordering::Relaxed);
